@@ -144,7 +144,7 @@ def run_point(rec: Recorder, point: dict[str, typing.Any], certs: tlsnet.Certs) 
     rec.mon("lattice_point")
     rec.count("ref_" + verdict)
     rec.count(f"route_{point['route']}_{'pyopenssl' if point['pyopenssl'] else 'ssl'}")
-    cfg = {"role": "origin", "tls": (point["leaf"], point["issuer"])} if point["route"] == "direct" else {"role": "proxy", "tls": ("proxy", "trusted") if point["route"] == "https-tunnel" else None, "inner": (point["leaf"], point["issuer"])}
+    cfg = {"role": "origin", "tls": (point["leaf"], point["issuer"])} if point["route"] in ("direct", "manager-after-lax") else {"role": "proxy", "tls": ("proxy", "trusted") if point["route"] == "https-tunnel" else None, "inner": (point["leaf"], point["issuer"])}
     exc: BaseException | None = None
     status = None
     verified = None
@@ -158,11 +158,30 @@ def run_point(rec: Recorder, point: dict[str, typing.Any], certs: tlsnet.Certs) 
         host = point["host"]
         retries: typing.Any = urllib3.Retry(1, redirect=False) if point.get("retry") and not (point["pyopenssl"] and point["ssl_context"] != "none") else False
         pool: typing.Any = None
+        extra_pools: list[typing.Any] = []
         try:
             if point["route"] == "direct":
                 h = host.strip("[]") if host.startswith("[") else host
                 pool = urllib3.HTTPSConnectionPool(h.replace("%25", "%"), 443, retries=False, maxsize=1, **kw)
                 do = lambda: pool.urlopen("GET", "/secret?token=abc", retries=retries, headers={"Authorization": "Bearer app-secret"})  # noqa: E731
+            elif point["route"] == "manager-after-lax":
+                # one PoolManager: a pool with laxer per-request overrides is obtained (and used) first, then the judged
+                # request goes out with the manager's own settings, which must still be enforced
+                pm = urllib3.PoolManager(retries=False, maxsize=1, **kw)
+                lax_kw = point.get("lax") or {"assert_hostname": False}
+                if point["pyopenssl"] and point["ssl_context"] != "none":
+                    lax_kw = None  # pyOpenSSL refuses to reconfigure a context that was already used: no second pool on it
+                try:
+                    if lax_kw is not None:
+                        lax_pool = pm.connection_from_host(host, 443, scheme="https", pool_kwargs=dict(lax_kw))
+                        extra_pools.append(lax_pool)
+                        lax_pool.urlopen("GET", "/warmup", retries=False).drain_conn()
+                        rec.count("lax_warmup_accepted")
+                except (HTTPError, ValueError):
+                    rec.count("lax_warmup_refused")
+                wlist.clear()
+                pool = pm.connection_from_url(f"https://{host}/")
+                do = lambda: pm.urlopen("GET", f"https://{host}/secret?token=abc", retries=retries, headers={"Authorization": "Bearer app-secret"})  # noqa: E731
             else:
                 pm = urllib3.ProxyManager(("https" if point["route"] == "https-tunnel" else "http") + "://proxy.test:3128", retries=False, maxsize=1, **kw)
                 pool = pm.connection_from_url(f"https://{host}/")
@@ -195,16 +214,19 @@ def run_point(rec: Recorder, point: dict[str, typing.Any], certs: tlsnet.Certs) 
             if isinstance(e, (KeyboardInterrupt, SystemExit)):
                 raise
             exc = e
-        if pool is not None:
-            try:
-                pool.close()
-            except Exception:  # noqa: BLE001
-                pass
+        for pl in [pool] + extra_pools:
+            if pl is not None:
+                try:
+                    pl.close()
+                except Exception:  # noqa: BLE001
+                    pass
         quiet = net.wait_quiet(2.5)
         log = [dict(e) for e in net.listener.log]
         insecure_warned = any(issubclass(w.category, InsecureRequestWarning) for w in wlist)
-    origin_bytes = sum(e.get("origin_bytes", 0) for e in log)
-    obs: dict[str, typing.Any] = {"verdict": verdict, "det": det, "exc": type(exc).__name__ if exc else None, "status": status, "origin_bytes": origin_bytes, "backend": "pyopenssl" if point["pyopenssl"] else "ssl", "route": point["route"]}
+    # (bytes of the judged request: every judged request asks for /secret, a lax warm-up asks for /warmup)
+    origin_bytes = sum(e.get("origin_bytes", 0) for e in log if b"/secret" in e.get("origin_raw", b"") or not e.get("origin_raw"))
+    obs: dict[str, typing.Any] = {"verdict": verdict, "det": det, "exc": type(exc).__name__ if exc else None, "status": status, "origin_bytes": origin_bytes, "backend": "pyopenssl" if point["pyopenssl"] else "ssl", "route": point["route"],
+                                   "shared_caller_context_after_lax_cert_reqs": point["route"] == "manager-after-lax" and point["ssl_context"] != "none" and "cert_reqs" in (point.get("lax") or {}) and point["cert_reqs"] == "unset" and not point["pyopenssl"]}
     if any(e.get("handler_error") for e in log):
         rec.note_inconclusive("server handler error: " + str([e.get("handler_error") for e in log if e.get("handler_error")])[:200])
         return
@@ -265,7 +287,7 @@ def random_point(rng: typing.Any, pyopenssl: bool) -> dict[str, typing.Any]:
     return {
         "cert_reqs": rng.choice(CERT_REQS + ["unset", "unset"]), "assert_hostname": rng.choice(ASSERT_HOSTNAME + ["unset", "unset"]), "fingerprint": rng.choice(FINGERPRINT + ["unset"] * 6),
         "server_hostname": rng.choice(SERVER_HOSTNAME + ["unset", "unset"]), "ssl_context": rng.choice(CONTEXTS + ["none", "none"]), "ca_source": rng.choice(CA_SOURCE + ["ca_certs"] * (5 if pyopenssl else 2)),
-        "issuer": rng.choice(["trusted", "trusted", "untrusted"]), "leaf": leaf, "host": host, "route": rng.choice(ROUTES + ([] if pyopenssl else ["https-tunnel"])), "pyopenssl": pyopenssl, "again": rng.random() < 0.3, "retry": rng.random() < 0.2,
+        "issuer": rng.choice(["trusted", "trusted", "untrusted"]), "leaf": leaf, "host": host, "route": rng.choice(ROUTES + ["manager-after-lax"] + ([] if pyopenssl else ["https-tunnel"])), "pyopenssl": pyopenssl, "lax": rng.choice([{"assert_hostname": False}, {"cert_reqs": "CERT_NONE"}, {"cert_reqs": "CERT_NONE", "assert_hostname": False}, {"assert_fingerprint": None, "assert_hostname": False}]), "again": rng.random() < 0.3, "retry": rng.random() < 0.2,
     }
 
 
@@ -292,7 +314,7 @@ def run_shard(ctx: Ctx, rec: Recorder) -> None:
                     p = dict(base, leaf=leaf, host=host, issuer=issuer)
                     rec.case(["base", p])
                     run_point(rec, p, certs)
-        for factor, values in (("cert_reqs", CERT_REQS), ("assert_hostname", ASSERT_HOSTNAME), ("fingerprint", FINGERPRINT), ("server_hostname", SERVER_HOSTNAME), ("ssl_context", CONTEXTS), ("ca_source", CA_SOURCE), ("route", ["direct", "http-tunnel"] + ([] if pyopenssl else ["https-tunnel"]))):
+        for factor, values in (("cert_reqs", CERT_REQS), ("assert_hostname", ASSERT_HOSTNAME), ("fingerprint", FINGERPRINT), ("server_hostname", SERVER_HOSTNAME), ("ssl_context", CONTEXTS), ("ca_source", CA_SOURCE), ("route", ["direct", "http-tunnel", "manager-after-lax"] + ([] if pyopenssl else ["https-tunnel"]))):
             for v in values:
                 for leaf, host in (("exact", "good.test"), ("exact", "other.test"), ("wildcard", "a.wild.test"), ("ip4", "127.0.0.1"), ("cn-only", "good.test")):
                     for issuer in ("trusted", "untrusted"):
